@@ -193,3 +193,98 @@ def instrument_model(model, coop):
     except TypeError:
         pass
     return cache._dict
+
+
+# ------------------------------------------------------------------------------------------------------------------
+# Single-preemption schedules with interpreter-level schedule points
+# ------------------------------------------------------------------------------------------------------------------
+def clear_lru_caches(prefix="acryo"):
+    """cache_clear() on every functools.lru_cache found as a module attribute of the package (cold start)."""
+    import sys
+
+    n = 0
+    for name, mod in list(sys.modules.items()):
+        if mod is None or not (name == prefix or name.startswith(prefix + ".")):
+            continue
+        for v in list(vars(mod).values()):
+            cc = getattr(v, "cache_clear", None)
+            if callable(cc) and hasattr(v, "cache_info"):
+                try:
+                    cc()
+                    n += 1
+                except Exception:  # noqa: BLE001
+                    pass
+    return n
+
+
+class PreemptOnce:
+    """Run fn_a in a real thread under sys.settrace; every 'call' / 'return' (and optionally 'line') event of a frame whose
+    code lives under `pkgdir` is a schedule point (CPython may hand the GIL over between any two bytecodes, so each of
+    these points is a place where a threaded dask scheduler can preempt the task). At the `target`-th point thread A parks,
+    fn_b runs to completion in a second real thread (or until it blocks on something A holds: then A is resumed and both
+    finish), then A continues to the end. target=None: A is never parked (used to count the points)."""
+
+    def __init__(self, pkgdir, events=("call", "return"), block_timeout=5.0):
+        self.pkgdir = pkgdir
+        self.events = frozenset(events)
+        self.block_timeout = block_timeout
+
+    def run(self, fn_a, fn_b, target):
+        import sys
+
+        st = {"count": 0, "where": None, "b_blocked": False}
+        parked, resume = threading.Event(), threading.Event()
+        res = {}
+        events, pkgdir = self.events, self.pkgdir
+
+        def hit(frame, event):
+            st["count"] += 1
+            if target is not None and st["count"] == target:
+                co = frame.f_code
+                st["where"] = f"{co.co_filename[len(pkgdir):].lstrip('/')}:{co.co_name}:{frame.f_lineno}:{event}"
+                parked.set()
+                resume.wait(120.0)
+
+        def local(frame, event, arg):
+            if event in events:
+                hit(frame, event)
+            return local
+
+        def glob(frame, event, arg):
+            if frame.f_code.co_filename.startswith(pkgdir):
+                if "call" in events:
+                    hit(frame, "call")
+                return local
+            return None
+
+        def go_a():
+            sys.settrace(glob)
+            try:
+                res["a"] = ("ok", fn_a())
+            except BaseException as e:  # noqa: BLE001
+                res["a"] = ("err", e)
+            finally:
+                sys.settrace(None)
+                parked.set()
+
+        def go_b():
+            try:
+                res["b"] = ("ok", fn_b())
+            except BaseException as e:  # noqa: BLE001
+                res["b"] = ("err", e)
+
+        ta = threading.Thread(target=go_a, name="preempt-a", daemon=True)
+        tb = threading.Thread(target=go_b, name="preempt-b", daemon=True)
+        ta.start()
+        if not parked.wait(120.0):
+            raise RuntimeError("preemption harness: task A neither parked nor finished")
+        tb.start()
+        tb.join(self.block_timeout)
+        if tb.is_alive():
+            st["b_blocked"] = True  # B waits for something A holds: a legal schedule continues with A
+        resume.set()
+        ta.join(120.0)
+        tb.join(120.0)
+        if ta.is_alive() or tb.is_alive():
+            raise RuntimeError("preemption harness: dead-lock")
+        return res["a"], res["b"], st
